@@ -10,11 +10,14 @@ Open Scope Z_scope.
 (* ------------------------------------------------------------------ what mp4_wf gives *)
 Lemma wf_parts f : mp4_wf f = true ->
   exists atoms, mp4_atoms f = Ok atoms /\ mp4_forest_ok f true atoms 0 (zlen f) = true /\
-                mp4_tables_ok f atoms = true /\ mp4_entries_in_file f atoms = true.
+                mp4_tables_ok f atoms = true /\ mp4_entries_in_file f atoms = true /\
+                mp4_forest_height atoms <= MP4_MAXDEPTH.
 Proof.
   unfold mp4_wf, mp4_parse. destruct (mp4_atoms f) as [atoms|e]; [|discriminate].
-  destruct (mp4_forest_ok f true atoms 0 (zlen f) && mp4_tables_ok f atoms && mp4_entries_in_file f atoms) eqn:E; [|discriminate].
-  intros _. apply andb_true_iff in E. destruct E as [E E3]. apply andb_true_iff in E. destruct E as [E1 E2].
+  destruct (mp4_forest_ok f true atoms 0 (zlen f) && (mp4_forest_height atoms <=? MP4_MAXDEPTH) &&
+            mp4_tables_ok f atoms && mp4_entries_in_file f atoms) eqn:E; [|discriminate].
+  intros _. apply andb_true_iff in E. destruct E as [E E3]. apply andb_true_iff in E. destruct E as [E E2].
+  apply andb_true_iff in E. destruct E as [E1 Eh]. apply Z.leb_le in Eh.
   exists atoms. auto.
 Qed.
 
@@ -89,7 +92,7 @@ Hypothesis Hatoms : mp4_atoms f = Ok atoms.
 Hypothesis Hpath : mp4_path atoms ILST_PATH = Some path.
 
 Lemma wf_atoms : mp4_forest_ok f true atoms 0 (zlen f) = true /\ mp4_tables_ok f atoms = true.
-Proof. destruct (wf_parts f Hwf) as (a & Ha & H1 & H2 & _). rewrite Hatoms in Ha. inversion Ha; subst. auto. Qed.
+Proof. destruct (wf_parts f Hwf) as (a & Ha & H1 & H2 & _ & _). rewrite Hatoms in Ha. inversion Ha; subst. auto. Qed.
 
 Lemma save_is_existing : mp4_save_existing f atoms path ilst_data cb = Ok f'.
 Proof. unfold mp4_save in Hsave. rewrite Hatoms, Hpath in Hsave. exact Hsave. Qed.
@@ -145,6 +148,7 @@ Hypothesis Htab : mp4_tables_ok f atoms = true.
 Hypothesis Hpath : mp4_path atoms ILST_PATH = Some path.
 Hypothesis Hclean : mp4_tags_clean atoms = true.
 Hypothesis Hsave : mp4_save f ilst_data cb = Ok f'.
+Hypothesis Hheight : mp4_forest_height atoms <= MP4_MAXDEPTH.
 
 Lemma final_existing : mp4_save_existing f atoms path ilst_data cb = Ok f'.
 Proof. unfold mp4_save in Hsave. rewrite Hatoms, Hpath in Hsave. exact Hsave. Qed.
@@ -152,11 +156,11 @@ Proof. unfold mp4_save in Hsave. rewrite Hatoms, Hpath in Hsave. exact Hsave. Qe
 (* C10_parents_consistent: the result is tiled at every level (hence every ancestor's size field = extent of its children),
    and it is what mutagen's reader will see on the next load *)
 Theorem save_existing_wellformed it :
-  mp4_forest_ok ilst_data false [it] 0 (zlen ilst_data) = true ->
+  mp4_forest_ok ilst_data false [it] 0 (zlen ilst_data) = true -> mp4_height it <= 62 ->
   exists atoms', mp4_atoms f' = Ok atoms' /\ mp4_forest_ok f' true atoms' 0 (zlen f') = true /\
-                 zlen f' = zlen f + (zlen f' - zlen f).
+                 mp4_forest_height atoms' <= MP4_MAXDEPTH.
 Proof.
-  intros Hit. destruct (existing_view f atoms path Hforest Hpath) as (off & old & [V]).
+  intros Hit Hith. destruct (existing_view f atoms path Hforest Hpath) as (off & old & [V]).
   assert (Hc : ilst_clean (v_ilst _ _ _ _ _ V) = true).
   { unfold mp4_tags_clean in Hclean. rewrite Hpath, (v_path _ _ _ _ _ V) in Hclean. exact Hclean. }
   destruct (pk_runs f atoms path off old V Hforest Htab Hc ilst_data cb f' final_existing) as (f2 & R1 & R2).
@@ -164,7 +168,9 @@ Proof.
   pose proof (existing_result_wellformed f atoms Hforest Htab moov udta meta ilst T1 T2 M1 M2 U1 U2 A R B off old
                 Va K1 K2 K3 N1 N2 N3 HS FA FR FB Hc _ f2 f' R1 R2 ilst_data (new_pad cb f off old ilst_data) it eq_refl
                 (Z.le_min_l _ _) Hit) as W.
-  eexists. split; [apply parse_complete; exact W|]. split; [exact W|lia].
+  pose proof (new_atoms_height atoms moov udta meta T1 T2 M1 M2 U1 U2 A R B off old Va K1 K2 K3
+                (new_region cb f off old ilst_data) ilst_data (new_pad cb f off old ilst_data) it Hheight Hith) as HH.
+  eexists. split; [apply parse_complete; [exact W|exact HH]|]. split; [exact W|exact HH].
 Qed.
 
 (* C10_offsets_follow_data *)
@@ -218,16 +224,16 @@ Qed.
 (* C10_parents_consistent, full form: the result satisfies every strict rule again (mp4_wf), so a further save starts from
    the same hypotheses *)
 Theorem save_existing_wf it :
-  mp4_forest_ok ilst_data false [it] 0 (zlen ilst_data) = true -> ilst_clean it = true ->
+  mp4_forest_ok ilst_data false [it] 0 (zlen ilst_data) = true -> ilst_clean it = true -> mp4_height it <= 62 ->
   covered atoms -> mp4_entries_in_file f atoms = true -> mp4_wf f' = true.
 Proof.
-  intros Hit Hic Hcov Hent. destruct (existing_view f atoms path Hforest Hpath) as (off & old & [V]).
+  intros Hit Hic Hith Hcov Hent. destruct (existing_view f atoms path Hforest Hpath) as (off & old & [V]).
   assert (Hc : ilst_clean (v_ilst _ _ _ _ _ V) = true).
   { unfold mp4_tags_clean in Hclean. rewrite Hpath, (v_path _ _ _ _ _ V) in Hclean. exact Hclean. }
   destruct (pk_runs f atoms path off old V Hforest Htab Hc ilst_data cb f' final_existing) as (f2 & R1 & R2).
   destruct V as [moov udta meta ilst T1 T2 M1 M2 U1 U2 A R B Vp Va K1 K2 K3 N1 N2 N3 N4 HS HRg FA FR FB]. cbn in *.
   exact (existing_result_wf f atoms Hforest Htab moov udta meta ilst T1 T2 M1 M2 U1 U2 A R B off old
            Va K1 K2 K3 N1 N2 N3 HS FA FR FB Hc _ f2 f' R1 R2 ilst_data (new_pad cb f off old ilst_data) it eq_refl
-           (Z.le_min_l _ _) Hit Hcov Hent Hic).
+           (Z.le_min_l _ _) Hit Hheight Hith Hcov Hent Hic).
 Qed.
 End Final.
